@@ -99,7 +99,7 @@ func singleDims() []c11Dim {
 func scanDims() []c11Dim {
 	return []c11Dim{
 		dimID(), dimExc(c11ExcList[:6]), dimCbm(c11CbmList), dimResp(), dimCbCells(),
-		{12, func(f *c11Frame, k int) {
+		{15, func(f *c11Frame, k int) {
 			n := uint32(f.cbCells)
 			switch k {
 			case 0:
@@ -130,6 +130,13 @@ func scanDims() []c11Dim {
 				f.cpr = []uint32{n, math.MaxUint32}
 			case 11:
 				f.cpr = []uint32{0, 1, 0, n}
+			// counts whose 32-bit sum wraps around to the number of cells the cellblock really holds
+			case 12:
+				f.cpr = []uint32{math.MaxUint32, n + 1}
+			case 13:
+				f.cpr = []uint32{0x80000000, 0x80000000 + n}
+			case 14:
+				f.cpr = []uint32{1, math.MaxUint32 - 1, n + 1}
 			}
 		}},
 		{7, func(f *c11Frame, k int) {
